@@ -5,6 +5,7 @@ import (
 	"fmt"
 	"github.com/bilibili/gengine/context"
 	"reflect"
+	"strings"
 )
 
 var TypeMap = map[string]string{
@@ -172,6 +173,27 @@ func (e *Expression) Evaluate(dc *context.DataContext, Vars map[string]reflect.V
 		//data compare
 		if l, ok1 := TypeMap[tlv.Kind().String()]; ok1 {
 			if r, ok2 := TypeMap[trv.Kind().String()]; ok2 {
+				//two integers are compared exactly: float64 cannot represent every 64-bit integer
+				if c, ok := compareIntegers(flv, frv, l, r); ok {
+					switch e.ComparisonOperator {
+					case "==":
+						b = reflect.ValueOf(c == 0)
+					case "!=":
+						b = reflect.ValueOf(c != 0)
+					case ">":
+						b = reflect.ValueOf(c > 0)
+					case "<":
+						b = reflect.ValueOf(c < 0)
+					case ">=":
+						b = reflect.ValueOf(c >= 0)
+					case "<=":
+						b = reflect.ValueOf(c <= 0)
+					default:
+						return reflect.ValueOf(nil), errors.New(fmt.Sprintf("line %d, column %d, code: %s, Can't be recognized ComparisonOperator: %s", e.LineNum, e.Column, e.Code, e.ComparisonOperator))
+					}
+					goto LAST
+				}
+
 				var ll float64
 				switch l {
 				case "int", "int8", "int16", "int32", "int64":
@@ -267,4 +289,46 @@ LAST:
 		}
 	}
 	return reflect.ValueOf(nil), errors.New(fmt.Sprintf("line %d, column %d, code: %s, evaluate Expression err!", e.LineNum, e.Column, e.Code))
+}
+
+// compareIntegers compares two integer-kind values (signed or unsigned) by their mathematical
+// value and returns -1, 0 or 1; ok is false when one of them is not an integer kind.
+func compareIntegers(a, b reflect.Value, akind, bkind string) (int, bool) {
+	aUint, bUint := strings.HasPrefix(akind, "uint"), strings.HasPrefix(bkind, "uint")
+	aInt, bInt := !aUint && strings.HasPrefix(akind, "int"), !bUint && strings.HasPrefix(bkind, "int")
+	if !(aInt || aUint) || !(bInt || bUint) {
+		return 0, false
+	}
+	cmpU := func(x, y uint64) int {
+		if x < y {
+			return -1
+		}
+		if x > y {
+			return 1
+		}
+		return 0
+	}
+	switch {
+	case aInt && bInt:
+		x, y := a.Int(), b.Int()
+		if x < y {
+			return -1, true
+		}
+		if x > y {
+			return 1, true
+		}
+		return 0, true
+	case aUint && bUint:
+		return cmpU(a.Uint(), b.Uint()), true
+	case aInt && bUint:
+		if a.Int() < 0 {
+			return -1, true
+		}
+		return cmpU(uint64(a.Int()), b.Uint()), true
+	default:
+		if b.Int() < 0 {
+			return 1, true
+		}
+		return cmpU(a.Uint(), uint64(b.Int())), true
+	}
 }
